@@ -129,13 +129,13 @@ impl<Front: SocketHandler> ExpectProxyProtocol<Front> {
 
     //@fn lib/src/protocol/proxy_protocol/expect.rs ExpectProxyProtocol::readable
     //@  ret r
-    //@  substall "u16::from_be_bytes([self.frontend_buffer[14], self.frontend_buffer[15]])" => "verif_be16(self.frontend_buffer[14], self.frontend_buffer[15])"
+    //@  optsubst "u16::from_be_bytes([self.frontend_buffer[14], self.frontend_buffer[15]])" => "verif_be16(self.frontend_buffer[14], self.frontend_buffer[15])"
     //@  subst "&mut self.frontend_buffer[self.index..total_len]" => "verif_window_mut(&mut self.frontend_buffer, self.index, total_len)"
     //@  subst "&self.frontend_buffer[..self.index]" => "verif_prefix(&self.frontend_buffer, self.index)"
     //@  requires
     //@    old(self).wf(), old(metrics).bin + 232 <= usize::MAX,
     //@  ensures
-    //@    final(self).wf(),
+    //@    final(self).wf(),                                                                            // [the-cursor-stays-inside-the-stage-and-the-announced-header]
     //@    final(self).frontend.received().len() >= old(self).frontend.received().len()
     //@      && final(self).acc() == old(self).acc() + final(self).frontend.received().subrange(old(self).frontend.received().len() as int, final(self).frontend.received().len() as int), // [the-header-bytes-accumulate-exactly-as-delivered-however-fragmented]
     //@    final(self).frontend.sent() == old(self).frontend.sent(),                                    // [nothing-is-forwarded-in-this-state]
